@@ -47,7 +47,10 @@ atexit.register(_stop)
 
 
 def job_of(case):
-    return {'env': case['env'], 'files': case['files']}
+    job = {'env': case['env'], 'files': case['files']}
+    if 'import_env' in case:
+        job['import_env'] = case['import_env']
+    return job
 
 
 def run_persistent(case):
